@@ -266,6 +266,12 @@ impl Run {
             load_raw(&mut run.w, &t, &f["raw"]);
             run.w.set_clock(n(&f["now"], "h"), n(&f["now"], "t"));
             cfgv["expect"] = f["obs"].clone();
+            // a deployed contract gets new code through `migrate`: the state is compared after it has run
+            let (creator, code) = (run.w.addr("creator"), run.code_id);
+            let r = call(&mut run.w, |w| w.app.migrate_contract(creator, t.clone(), &cw20_base::msg::MigrateMsg {}, code));
+            if !r.ok {
+                run.sc.anomalies.borrow_mut().push(format!("the upgrade of a deployment of the release was refused: {}", r.err));
+            }
         }
         // (that the observation equals the recorded one is the formula UpgradeKeepsState, checked by TLC)
         let obs = run.observe();
